@@ -222,6 +222,19 @@ Theorem C18_continuous_atomic_exp_position : forall c ops o s' e,
 Proof. exact exp_atomic. Qed.
 Print Assumptions C18_continuous_atomic_exp_position.
 
+(* C18_continue: hence the rest of any history behaves as if the rejected call had not been made *)
+Theorem C18_continuous_continue_legacy : forall c ops o s' e rest,
+  lstep c (l_final c l_init ops) o = (s', Some (Err e)) ->
+  l_run c s' rest = l_run c (l_final c l_init ops) rest.
+Proof. exact legacy_continue. Qed.
+Print Assumptions C18_continuous_continue_legacy.
+
+Theorem C18_continuous_continue_exp : forall c ops o s' e rest,
+  estep c (e_final c (e_init c) ops) o = (s', Some (Err e)) ->
+  e_run c s' rest = e_run c (e_final c (e_init c) ops) rest.
+Proof. exact exp_continue. Qed.
+Print Assumptions C18_continuous_continue_exp.
+
 (* ================= T1: the source constructs the models transcribe ================= *)
 
 (* re-extracted from the working tree on every run (harness/tables/continuous.py): the comparison operators of
